@@ -105,6 +105,15 @@ def b_or(a, b):
 
 def b_cmp(op, a, b):
     if isinstance(a, RF) and isinstance(b, RF):
+        # comparison of a gated constant with a constant: push the comparison into the arms
+        for x, y, flip in ((a, b, False), (b, a, True)):
+            if y.is_const() and not x.is_const():
+                parts = ite_parts(x)
+                if parts is not None and isinstance(parts[1], RF) and isinstance(parts[2], RF) and parts[1].is_const() and parts[2].is_const():
+                    c, p, q = parts
+                    P = b_cmp(op, y, p) if flip else b_cmp(op, p, y)
+                    Q = b_cmp(op, y, q) if flip else b_cmp(op, q, y)
+                    return b_or(b_and(c, P), b_and(b_not(c), Q))
         if a.is_const() and b.is_const():
             x, y = a.const_value(), b.const_value()
             return b_const({'<': x < y, '<=': x <= y, '>': x > y, '>=': x >= y, '==': x == y, '!=': x != y}[op])
@@ -445,6 +454,10 @@ def downcast(v, variant):
     if isinstance(v, Sym):
         return Sym(v.atom, v.ty, variant)
     if isinstance(v, Ite):
+        # projecting a gated enum onto one variant: only the arms that are in that variant can be meant
+        arms = [x for x in (v.a, v.b) if isinstance(x, St) and x.variant is not None]
+        if len(arms) == 2 and v.a.variant != v.b.variant and variant in (v.a.variant, v.b.variant):
+            return v.a if v.a.variant == variant else v.b
         return Ite(v.c, downcast(v.a, variant), downcast(v.b, variant))
     return v
 
@@ -1141,7 +1154,10 @@ class Interp:
         if 'closure' in o:
             return St('closure:' + o['closure'], None, {})
         if 'float_bits' in o:
-            return RF.const(Fraction(nf.f64_from_bits(int(o['float_bits'], 16))))
+            fv = nf.f64_from_bits(int(o['float_bits'], 16))
+            if fv != fv or fv in (float('inf'), float('-inf')):
+                return RF.sym('const:f64:' + ('nan' if fv != fv else 'inf' if fv > 0 else '-inf'))
+            return RF.const(Fraction(fv))
         if 'int' in o:
             return RF.const(int(o['int']))
         if 'bool' in o:
